@@ -1,6 +1,7 @@
 import KoordVerif.Proofs.C02Iter
 import KoordVerif.Proofs.C02Perm
 import KoordVerif.Proofs.C02Scale
+import KoordVerif.Proofs.C02ExtGlue
 /-
 C02 — property theorems (DESIGN.md §4 C02).  `redistributeN total ns` is the model of
 `quotaTree.redistribution(total)` over the sibling list `ns`: it returns every sibling with
@@ -554,6 +555,171 @@ theorem refresh_fresh (c0 : Calc) (h0 : c0.Fresh) (ops : List CalcOp) (name : Na
     · exact ⟨_, _, cacheGet_put_same _ _ _, rfl⟩
   obtain ⟨v, rt, hg, hv⟩ := hex
   exact ⟨v, rt, hg, hv, (hfc name v rt hg).2 hv⟩
+
+/-! ### 4b. zero weights get nothing beyond the minimum (whole division, not only one round) -/
+
+/-- a sibling whose shared weight is not positive ends with exactly its phase-1 runtime: its effective
+    minimum when it asks for more, else what the lend rule gives — whatever the total and the siblings. -/
+theorem zero_weight_gets_nothing_beyond_min (total : Int) (ns : List Node) :
+    ∀ q ∈ (redistributeN total ns).1, q.1.weight ≤ 0 → q.2 = initRuntime q.1 := by
+  have hall : ∀ q ∈ initAll ns, q.2 = initRuntime q.1 := fun q hq => (mem_initAll ns q hq).2
+  have hadj : ∀ p ∈ (initAll ns).filter (fun p => needAdjust p.1), p.2 < p.1.request :=
+    fun p hp => (adj_inv ns p hp).2
+  unfold redistributeN
+  simp only []
+  split
+  · intro q hq hw
+    rcases List.mem_append.mp hq with h | h
+    · exact hall q (List.mem_filter.mp h).1
+    · have := iter_zero_weight_unchanged _ _ _ _ hadj q h hw
+      exact hall q (List.mem_filter.mp this).1
+  · intro q hq _
+    rcases List.mem_append.mp hq with h | h
+    · exact hall q (List.mem_filter.mp h).1
+    · exact hall q (List.mem_filter.mp h).1
+
+theorem zero_weight_hungry_gets_min (total : Int) (ns : List Node) :
+    ∀ q ∈ (redistributeN total ns).1, q.1.weight ≤ 0 → effMin q.1 < q.1.request → q.2 = effMin q.1 := by
+  intro q hq hw hr
+  rw [zero_weight_gets_nothing_beyond_min total ns q hq hw]
+  unfold initRuntime
+  simp [hr]
+
+/-! ### 7. the glue: what is DECLARED on the ElasticQuota object is what the division works on -/
+
+/-- declared list entries are non-negative (the webhook rejects negative max / min / shared weight). -/
+def QDecl.NonNeg (q : QDecl) : Prop :=
+  (∀ p ∈ q.max, 0 ≤ p.2) ∧ (∀ p ∈ q.min, 0 ≤ p.2) ∧ (∀ l, q.ann = .parsed l → ∀ p ∈ l, 0 ≤ p.2)
+
+/-- a dimension the annotation names with weight 0 keeps weight 0 — it is NOT replaced by max — as soon
+    as the annotation is not all-zero. -/
+theorem weight_zero_dimension_kept (l max : RL) (d : Nat) (hz : rlIsZero l = false) (h0 : rlFind l d = some 0) :
+    sharedWeight (.parsed l) max d = 0 := by
+  rw [sharedWeight_parsed_nonzero l max d hz]; exact rlGet_of_find_some l d 0 h0
+
+/-- a dimension a valid, not all-zero annotation does not name has weight 0. -/
+theorem weight_missing_dimension_is_zero (l max : RL) (d : Nat) (hz : rlIsZero l = false) (h0 : rlFind l d = none) :
+    sharedWeight (.parsed l) max d = 0 := by
+  rw [sharedWeight_parsed_nonzero l max d hz]; exact rlGet_of_find_none l d h0
+
+/-- every other non-zero annotation entry is taken as it is. -/
+theorem weight_is_annotation (l max : RL) (d : Nat) (v : Int) (hz : rlIsZero l = false) (h0 : rlFind l d = some v) :
+    sharedWeight (.parsed l) max d = v := by
+  rw [sharedWeight_parsed_nonzero l max d hz]; exact rlGet_of_find_some l d v h0
+
+/-- no annotation, an annotation that does not parse, `{}` and an all-zero annotation: spec.max in every
+    dimension (0 where max does not name the dimension). -/
+theorem weight_default_is_max (a : Ann) (max : RL) (d : Nat)
+    (h : a = .absent ∨ a = .invalid ∨ ∃ l, a = .parsed l ∧ rlIsZero l = true) :
+    sharedWeight a max d = rlGet max d := sharedWeight_default a max d h
+
+/-- lend label: absent and "true" lend, "false" does not; guaranteed-usage mode never lends. -/
+theorem allow_lent_default : allowLent false 0 = true ∧ allowLent false 1 = true ∧ allowLent false 2 = false ∧
+    ∀ l, allowLent true l = false := by
+  refine ⟨by decide, by decide, by decide, ?_⟩
+  intro l; simp [allowLent]
+
+/-- a key missing from spec.min (or a nil spec.min) is a minimum of 0. -/
+theorem declared_min_missing_key_is_zero (q : QDecl) (d : Nat) (h : rlFind q.min d = none) : rlGet q.min d = 0 :=
+  rlGet_of_find_none q.min d h
+
+/-- the request handed to the parent: never above a declared max; a quota that does not lend asks at
+    least for its declared min (unless max caps it); a lending quota asks for what its children ask. -/
+theorem declared_request_rules (gate : Bool) (q : QDecl) (d : Nat) :
+    (∀ m, rlFind q.max d = some m → limitedRequest gate q d ≤ m) ∧
+    (rlFind q.max d = none → allowLent gate q.label = false → rlGet q.min d ≤ limitedRequest gate q d) ∧
+    (rlFind q.max d = none → allowLent gate q.label = true → limitedRequest gate q d = q.childReq) := by
+  refine ⟨fun m h => limitedRequest_le_max gate q d m h, ?_, ?_⟩
+  · intro h hl; rw [limitedRequest_uncapped gate q d h]; exact (declRequest_nolend_ge_min gate q d hl).1
+  · intro h hl; rw [limitedRequest_uncapped gate q d h]; exact declRequest_lend gate q d hl
+
+/-- guarantee: nothing unless guaranteed-usage mode is on; then at least the declared min and at least
+    what is allocated below. -/
+theorem declared_guarantee_rules (q : QDecl) (d : Nat) :
+    guaranteeOf false q d = 0 ∧ rlGet q.min d ≤ guaranteeOf true q d ∧ q.alloc ≤ guaranteeOf true q d :=
+  ⟨guaranteeOf_off q d, (guaranteeOf_on q d).1, (guaranteeOf_on q d).2⟩
+
+/-- the nodes derived from non-negative declarations satisfy the one hypothesis of the division theorems,
+    so every theorem above holds for runtimes computed straight from the declared objects. -/
+theorem glue_weights_ok (share : Int → Int → Int → Int) (gate scale : Bool) (total : Int) (d : Nat) (qs : List QDecl)
+    (h : ∀ q ∈ qs, q.NonNeg) : WeightsOK (glueNodes share gate scale total d qs) := by
+  intro n hn
+  unfold glueNodes at hn
+  obtain ⟨q, hq, rfl⟩ := List.mem_map.mp hn
+  have := h q hq
+  exact sharedWeight_nonneg q.ann q.max d this.1 this.2.2
+
+/-- end to end: a quota whose (valid, not all-zero) annotation gives dimension `d` weight 0 — by naming it
+    with 0 or by not naming it — gets nothing beyond its phase-1 runtime in that dimension. -/
+theorem glue_zero_weight_no_share (share : Int → Int → Int → Int) (gate scale : Bool) (total : Int) (d : Nat)
+    (qs : List QDecl) (q : QDecl) (l : RL) (ha : q.ann = .parsed l) (hz : rlIsZero l = false) (h0 : rlGet l d = 0) :
+    ∀ p ∈ (redistributeN total (glueNodes share gate scale total d qs)).1,
+      p.1 = glueNode share gate scale total d qs q → p.2 = initRuntime p.1 := by
+  intro p hp he
+  apply zero_weight_gets_nothing_beyond_min total _ p hp
+  rw [he]
+  show sharedWeight q.ann q.max d ≤ 0
+  rw [ha, sharedWeight_parsed_nonzero l q.max d hz, h0]
+  exact Int.le_refl 0
+
+/-! ### 8. the calculator's mutators visit every tracked dimension -/
+
+/-- `updateOneGroupMinQuota` writes `newMin.Name(resKey)` into EVERY tracked dimension: a key that was
+    removed from the new min (or a dropped min) resets that dimension's node minimum to 0. -/
+theorem update_min_removed_key_resets (c : CalcD) (name : Nat) (newMin : RL) (d : Nat)
+    (hd : c.keys.contains d = true) (hrm : rlFind newMin d = none) :
+    ∀ n ∈ (c.updateMin name newMin).trees d, n.name = name → n.min = 0 := by
+  intro n hn hname
+  obtain ⟨n0, _, rfl⟩ := calcD_update_mem setMin c name newMin d hd n hn
+  by_cases h : n0.name = name
+  · simp [h, setMin, rlGet_of_find_none newMin d hrm]
+  · simp [h] at hname
+
+/-- in general the node's minimum becomes the new list's entry, other nodes and other fields stay. -/
+theorem update_min_sets_every_tracked_dimension (c : CalcD) (name : Nat) (newMin : RL) (d : Nat)
+    (hd : c.keys.contains d = true) :
+    ∀ n ∈ (c.updateMin name newMin).trees d,
+      (n.name = name → n.min = rlGet newMin d) ∧ (n.name ≠ name → n ∈ c.trees d) := by
+  intro n hn
+  obtain ⟨n0, h0, rfl⟩ := calcD_update_mem setMin c name newMin d hd n hn
+  by_cases h : n0.name = name
+  · simp [h, setMin]
+  · simp [h, h0]
+
+/-- same loop, same domain for the shared weight. -/
+theorem update_weight_sets_every_tracked_dimension (c : CalcD) (name : Nat) (w : RL) (d : Nat)
+    (hd : c.keys.contains d = true) :
+    ∀ n ∈ (c.updateWeight name w).trees d, n.name = name → n.weight = rlGet w d := by
+  intro n hn hname
+  obtain ⟨n0, _, rfl⟩ := calcD_update_mem setWeight c name w d hd n hn
+  by_cases h : n0.name = name
+  · simp [h, setWeight]
+  · simp [h] at hname
+
+/-- the trees are a function of the LAST declared list only: an earlier update of the same quota leaves
+    no trace (no history dependence through the min / weight glue). -/
+theorem update_min_last_wins (c : CalcD) (name : Nat) (l1 l2 : RL) (d : Nat) :
+    ((c.updateMin name l1).updateMin name l2).trees d = (c.updateMin name l2).trees d :=
+  calcD_update_last_wins setMin (fun _ _ => rfl) (fun _ _ _ => rfl) c name l1 l2 d
+
+theorem update_weight_last_wins (c : CalcD) (name : Nat) (l1 l2 : RL) (d : Nat) :
+    ((c.updateWeight name l1).updateWeight name l2).trees d = (c.updateWeight name l2).trees d :=
+  calcD_update_last_wins setWeight (fun _ _ => rfl) (fun _ _ _ => rfl) c name l1 l2 d
+
+/-! non-vacuity of the new material -/
+
+example : sharedWeight (.parsed [(0, 0), (1, 5)]) [(0, 100000), (1, 7)] 0 = 0 := by decide
+example : sharedWeight (.parsed [(0, 0), (1, 0)]) [(0, 100000), (1, 7)] 0 = 100000 := by decide
+example : sharedWeight .invalid [(0, 100000), (1, 7)] 2 = 0 := by decide
+
+/-- quota a declares cpu weight 0, b declares 100; both ask for 100 cpu of a total of 100: 0 / 100. -/
+example : glueRun exactShare false false 100000 0
+    [⟨1, 0, 100000, 0, [(0, 100000), (1, 100)], [], .parsed [(0, 0), (1, 100)]⟩,
+     ⟨2, 0, 100000, 0, [(0, 100000), (1, 100)], [], .parsed [(0, 100000), (1, 100)]⟩] = [(2, 100000), (1, 0)] := by decide
+
+/-- min {cpu 20, mem 20} → {cpu 20}: the memory tree's node goes back to 0. -/
+example : ((⟨[0, 1], fun _ => [⟨1, 1, 100, 20, 0, true⟩]⟩ : CalcD).updateMin 1 [(0, 20)]).trees 1
+    = [⟨1, 1, 100, 0, 0, true⟩] := by decide
 
 /-! ### non-vacuity -/
 
